@@ -66,7 +66,21 @@ class Ctx:
         rc, out, dt = sh([sys.executable, os.path.join(VERIF, 'tools', 'rs2v.py'), REPO, os.path.join(COQ, 'gen')])
         self.say('translator:', out.strip().replace('\n', ' | '))
         if rc != 0:
-            self.problems.append(('translator', out.strip()))
+            # a unit that cannot be translated breaks the tie of the properties whose theorems range over it:
+            # the capacity decisions of the vector types (C07, C08), the position arithmetic of allocator_impl.rs
+            # (C01, C02, C13); bumping.rs / size_config.rs / lib.rs underlie everything
+            bad = [l for l in out.split('\n') if 'FAILED' in l or 'unsupported' in l]
+            scope = set()
+            for l in bad:
+                if 'capsites' in l.lower():
+                    scope |= {'C07', 'C08'}
+                elif 'allocsites' in l.lower():
+                    scope |= {'C01', 'C02', 'C13'}
+                else:
+                    scope = None
+                    break
+            if scope is None or not bad or self.pid in scope:
+                self.problems.append(('translator', out.strip()))
         # signature tables of C04 (kept fresh on every run; only C04 reports a failure of this translator)
         rc2, out2, dt2 = sh([sys.executable, os.path.join(VERIF, 'tools', 'c04.py'), '--tables', REPO, os.path.join(COQ, 'gen')])
         self.tables_msg = out2.strip()
